@@ -99,7 +99,9 @@ class RoundTrip(Part):
 
     def strategy(self, tier):
         ints = st.lists(st.integers(0, 9), min_size=1, max_size=8)
-        return st.builds(lambda s, o, al, sp, lead: {"s": s, "order": o, "alias": al, "spaces": sp, "lead": lead}, GS.style_spec(), ints, ints, st.lists(st.integers(0, 2), min_size=1, max_size=5), st.booleans())
+        derive = st.sampled_from(["none", "copy", "without_color", "update_link", "update_link_none", "add", "background_style"])
+        return st.builds(lambda s, o, al, sp, lead, warm, d, other: {"s": s, "order": o, "alias": al, "spaces": sp, "lead": lead, "warm": warm, "derive": d, "other": other},
+                         GS.style_spec(), ints, ints, st.lists(st.integers(0, 2), min_size=1, max_size=5), st.booleans(), st.booleans(), derive, st.sampled_from(GS.PALETTE))
 
     def check(self, spec, ctx):
         from rich.style import Style
@@ -116,6 +118,36 @@ class RoundTrip(Part):
             ctx.violation("roundtrip", "C06/roundtrip/normalize", "parse(normalize(%r)=%r) = %r != %r" % (text, norm, back2, style))
         if GS.style_view(back) != GS.spec_view(s):
             ctx.violation("roundtrip", "C06/roundtrip/view", "parse(str(s)) has fields %r, expected %r" % (GS.style_view(back), GS.spec_view(s)))
+        # styles derived from one whose string form may already be cached must describe themselves, not their source
+        src = sut(GS.build_style, s)
+        if spec.get("warm"):
+            sut(str, src)
+            sut(repr, src)
+            sut(Style.normalize, str(src))
+        how = spec.get("derive", "none")
+        if how != "none":
+            if how == "copy":
+                d, exp = sut(src.copy), s
+            elif how == "without_color":
+                d, exp = sut(lambda: src.without_color), dict(s, color=None, bgcolor=None)
+            elif how == "update_link":
+                d, exp = sut(src.update_link, "https://n.example/new"), dict(s, link="https://n.example/new")
+            elif how == "update_link_none":
+                d, exp = sut(src.update_link, None), dict(s, link=None)
+            elif how == "add":
+                d, exp = sut(lambda: src + GS.build_style(spec["other"])), GS.merge(s, spec["other"])
+            else:
+                d, exp = sut(lambda: src.background_style), {"attrs": {}, "color": None, "bgcolor": s["bgcolor"], "link": None}
+            dtext = sut(str, d)
+            dback = sut(Style.parse, dtext)
+            if GS.style_view(d) != GS.spec_view(exp):
+                ctx.violation("route", "C06/route/" + how, "%s of %r has fields %r, expected %r" % (how, src, GS.style_view(d), GS.spec_view(exp)))
+            elif not (dback == d) or GS.style_view(dback) != GS.spec_view(exp):
+                ctx.violation("roundtrip", "C06/roundtrip/derived-" + how, "%s of %r (string form cached before: %r): str() = %r parses to %r, not to the style itself %r" % (how, src, bool(spec.get("warm")), dtext, GS.style_view(dback), GS.style_view(d)))
+            dn = sut(Style.parse, sut(Style.normalize, dtext))
+            if not (dn == d) and not ctx.violations:
+                ctx.violation("roundtrip", "C06/roundtrip/derived-normalize-" + how, "normalize(str(%s of %r)) parses to another style" % (how, src))
+            ctx.cls("derive:" + how + (":warm" if spec.get("warm") else ""))
         definition = spell(s, spec["order"], spec["alias"], spec["spaces"])
         if spec["lead"]:
             definition = " " + definition + " "
